@@ -230,7 +230,7 @@ def c08_c(ctx: Ctx):
     # additions
     adder = m.nested.get("_add")
     stores = []
-    for f in [m] + list(m.nested.values()):
+    for f in [m] + list(m.nested_all):
         for n in body_nodes(f):
             if isinstance(n, ast.Assign) and any(isinstance(t, ast.Subscript) and _is_cache(t.value) for t in n.targets):
                 stores.append((f, n))
